@@ -34,7 +34,7 @@ type c16 struct{ base }
 
 func init() {
 	core.Register(c16{base{id: "C16", race: true, level: "exploration", quickB: 16, thoroughB: 32,
-		rule: "forced schedules = full product of connection state {idle, mid-message (header sent), parked at cmd:received, parked at cmd:admitted, inside parser, inside statement function, inside COPY read} x Close callers {1,2,3,8} x Close start {free, first arrivals parked at close:checked until all callers entered} x message kind {simple Query, Parse, Execute}, each on a fresh server (exhaustive in both tiers); after all Close calls returned a further query is sent on the same and on a new connection (boundary, no hooks). Stress = rounds of 1-16 connections firing queries while 1-4 goroutines call Close at PRNG-chosen moments, with random yields at every schedule point and transport operation, under the race detector. Non-trivial = schedule where Close overlaps an in-flight command or another Close; distinct = schedule tuple, for stress the hash of the global (actor,event) order.",
+		rule: "forced schedules = full product of connection state {idle, mid-message (header sent), a finished command followed in the same segment by part of the next message, parked at cmd:received, parked at cmd:admitted, inside parser, inside statement function, inside COPY read} x Close callers {1,2,3,8} x Close start {free, first arrivals parked at close:checked until all callers entered} x message kind {simple Query, Parse, Execute}, each on a fresh server (exhaustive in both tiers); after all Close calls returned a further query is sent on the same and on a new connection (boundary, no hooks). Stress = rounds of 1-16 connections firing queries while 1-4 goroutines call Close at PRNG-chosen moments, with random yields at every schedule point and transport operation, under the race detector. Non-trivial = schedule where Close overlaps an in-flight command or another Close; distinct = schedule tuple, for stress the hash of the global (actor,event) order.",
 		need:        []string{"forced_schedules", "close_overlaps_running_handler", "close_overlaps_admission", "concurrent_close_groups", "post_close_queries", "stress_rounds", "race_detector_active_batches", "serve_returned_nil"},
 		assumptions: append([]string{"for several concurrent Close calls the wait/finality guarantees are asserted once all of them have returned; the settle period used before releasing a parked goroutine only affects detection power, never soundness"}, commonAssumptions...)}})
 }
@@ -227,6 +227,13 @@ func (ch c16) runForced(c *core.Ctx, s c16sched, idx int) {
 		cl.C.Send(m[:5])
 		pendingBody = m[5:]
 		cl.C.Quiesce()
+	case "aftercmd-partial":
+		// a complete command and the first bytes of the next message arrive together; the client stalls
+		m := msgFor("plain")
+		cut := 1 + len(m)/2
+		cl.C.Send(append(append([]byte{}, pg.Query("complete-first")...), m[:cut]...))
+		pendingBody = m[cut:]
+		cl.C.Quiesce()
 	case "received":
 		h.parkAt("cmd:received", 1)
 		cl.C.Send(msgFor("plain"))
@@ -299,9 +306,34 @@ func (ch c16) runForced(c *core.Ctx, s c16sched, idx int) {
 	if inflight && e.closeReturned.Load() {
 		viol("wait", "Close returned while a started handler was still inside its callback ("+s.State+")", "all Close calls returned although the harness still holds the handler parked")
 	}
+	// a connection that is merely in the middle of reading a message has no started handler:
+	// Close must return although the client stalls (nothing is sent until it has)
+	if s.State == "midmsg" || s.State == "aftercmd-partial" {
+		got := 0
+		timeout := time.After(10 * time.Second)
+	waitClose:
+		for got < s.Closers {
+			select {
+			case <-closeDone:
+				got++
+			case <-timeout:
+				dump, lib := core.ClassifyHang()
+				if len(lib) > 0 {
+					viol("deadlock", "Close blocks on a connection that is only in the middle of reading a message ("+s.State+"): "+strings.Join(lib, "; "), trim(dump, 3000))
+				} else {
+					c.Inconclusive("Close did not return for a mid-message connection and no library goroutine is blocked")
+				}
+				break waitClose
+			}
+		}
+		for ; got > 0; got-- {
+			closeDone <- 0 // hand the tokens back for the common "every Close must return" step below
+		}
+		c.Count("close_with_stalled_partial_message", 1)
+	}
 	// release whatever the connection is parked on
 	switch s.State {
-	case "midmsg":
+	case "midmsg", "aftercmd-partial":
 		cl.C.Send(pendingBody)
 	case "received":
 		h.releaseAll("cmd:received")
@@ -550,7 +582,7 @@ func (ch c16) Run(c *core.Ctx) {
 	nb := ch.Batches(c.Tier)
 	tr.WatchdogTimeout = 30 * time.Second
 	var scheds []c16sched
-	for _, st := range []string{"idle", "midmsg", "received", "admitted", "inparser", "instmt", "incopy"} {
+	for _, st := range []string{"idle", "midmsg", "aftercmd-partial", "received", "admitted", "inparser", "instmt", "incopy"} {
 		for _, k := range []int{1, 2, 3, 8} {
 			for _, cp := range []bool{false, true} {
 				for _, kind := range []string{"query", "parse", "exec"} {
